@@ -405,34 +405,65 @@ func extra10C17(c *Ctx) {
 		return
 	}
 	info := f.Info()
+	g := c.G(f)
 	s := paramAt(f, 0)
 	n := 0
+	// the suffix of s an expression denotes (through single-assignment locals): the text of X in s[X:]
+	suffixStart := func(e ast.Expr) (string, bool) {
+		for _, x := range expand(g, e, 2) {
+			ex, isE := x.(ast.Expr)
+			if !isE {
+				continue
+			}
+			if se, ok := ast.Unparen(ex).(*ast.SliceExpr); ok && isIdentOf(info, se.X, s) && se.High == nil && se.Low != nil {
+				return core.ExprString(se.Low), true
+			}
+		}
+		return "", false
+	}
 	// offsets the decoders are created from
 	starts := map[string]bool{}
 	nDec := 0
 	for _, call := range core.CallsTo(info, f.Body, false, "strings.NewReader") {
-		if se, ok := ast.Unparen(call.Args[0]).(*ast.SliceExpr); ok && isIdentOf(info, se.X, s) && se.High == nil && se.Low != nil {
-			starts[core.ExprString(se.Low)] = true
-			nDec++
+		nDec++
+		if st, ok := suffixStart(call.Args[0]); ok {
+			starts[st] = true
 		} else {
-			starts["<whole>"] = true
-			nDec++
+			starts["<"+core.ExprString(call.Args[0])+">"] = true
 		}
 	}
-	ast.Inspect(f.Body, func(nd ast.Node) bool {
-		as, ok := nd.(*ast.AssignStmt)
-		if !ok || len(as.Lhs) != 1 || len(as.Rhs) != 1 {
-			return true
+	// the named result, if any
+	var restVar types.Object
+	if f.Type.Results != nil && len(f.Type.Results.List) == 2 && len(f.Type.Results.List[1].Names) == 1 {
+		restVar = info.Defs[f.Type.Results.List[1].Names[0]]
+	}
+	judge := func(at ast.Node, e ast.Expr) {
+		if id, isId := ast.Unparen(e).(*ast.Ident); isId && restVar != nil && info.Uses[id] == restVar {
+			return // the named result itself: judged where it is assigned
 		}
-		se, isS := ast.Unparen(as.Rhs[0]).(*ast.SliceExpr)
-		if !isS || !isIdentOf(info, se.X, s) || se.High != nil || se.Low == nil {
-			return true
+		if tv, has := info.Types[e]; has && tv.Value != nil {
+			return // the empty string
 		}
-		if _, isId := as.Lhs[0].(*ast.Ident); !isId || info.TypeOf(as.Lhs[0]) == nil || info.TypeOf(as.Lhs[0]).String() != "string" {
-			return true
+		st, ok := suffixStart(e)
+		if !ok {
+			return
 		}
 		n++
-		c.Check(rule, f.Key()+" rest#"+itoa(n)+" starts at the decoder's start", c.Pos(as), len(starts) == 1 && starts[core.ExprString(se.Low)], "the rest is `"+core.ExprString(as.Rhs[0])+"` while the decoders read from "+itoa(nDec)+" different starting points")
+		c.Check(rule, f.Key()+" rest#"+itoa(n)+" starts at the decoder's start", c.Pos(at), len(starts) == 1 && starts[st], "the rest is `"+core.ExprString(e)+"` (from s["+st+":]) while the decoders read from "+itoa(len(starts))+" starting point(s)")
+	}
+	ast.Inspect(f.Body, func(nd ast.Node) bool {
+		switch x := nd.(type) {
+		case *ast.AssignStmt:
+			for i, l := range x.Lhs {
+				if id, isId := l.(*ast.Ident); isId && restVar != nil && info.ObjectOf(id) == restVar && i < len(x.Rhs) {
+					judge(x, x.Rhs[i])
+				}
+			}
+		case *ast.ReturnStmt:
+			if len(x.Results) == 2 {
+				judge(x, x.Results[1])
+			}
+		}
 		return true
 	})
 	c.Expect(rule, "assignments of the unparsed rest in parseObjectsRest", n, 1)
